@@ -103,6 +103,38 @@ packet One {
 }
 """
 
-DOCS = {"rich": RICH, "second": SECOND, "minimal": MINIMAL, "special": SPECIAL}
+# documentation strings that span several lines (the lexer admits line breaks inside back quotes), at every
+# nesting depth and in every declaration form that takes one
+MULTILINE = """MetaData Common {
+    u32 Qty `quantity
+  in lots`,
+    Qty Amount `alias
+of Qty`,
+}
+
+root packet Doc {
+    u16 Kind `first line
+second line
+   third line`,
+    u16 Len @lengthOf(Body) `length
+of the body`,
+    Amount `amount
+doc`,
+    Leg {
+        u8 side `inner
+    doc`,
+    },
+    match Kind as Body {
+        1 : One,
+    },
+    @calculatedFrom("VSUM16") u16 Ck `check
+sum`,
+}
+packet One {
+    u16 v,
+}
+"""
+
+DOCS = {"rich": RICH, "second": SECOND, "minimal": MINIMAL, "special": SPECIAL, "multiline": MULTILINE}
 
 # compile-able? (rich uses @tag and MetaData refs; all three are accepted by the compiler)
